@@ -63,6 +63,19 @@ class Checker:
         parts = text.split(" ")
         data = bytes.fromhex(parts[2]) if len(parts) > 2 else b""
         out += self.compare(d, payload, data, case, "actisense")
+        if d.fast:
+            # the frame formats carry the same payload as the whole-message format: length byte = payload length, data = payload
+            for name, fn, off in (("ebyte", self.enc.encode_ebyte, 5), ("usb", self.enc.encode_usb, 10)):
+                try:
+                    pks = fn(msg)
+                    frames = [p[off:off + ((p[0] & 0x0F) if name == "ebyte" else p[9])] for p in pks]
+                    body = b"".join(fr[2:] if i == 0 else fr[1:] for i, fr in enumerate(frames))
+                    announced = frames[0][1] if frames and len(frames[0]) > 1 else None
+                    if announced != len(data) or body[:len(data)] != data or any(body[len(data):].strip(b"\xff")):
+                        out.append((f"C02|{name}-frames-differ|{d.key}", f"encode_{name} frames announce {announced} bytes and carry {body.hex()[:80]}, encode_actisense payload is "
+                                    f"{len(data)} bytes {data.hex()[:80]}", case))
+                except Exception as e:
+                    out.append((f"C02|encode-error-{name}|{d.key}", f"encode_{name} failed: {e}", case))
         if not d.fast:
             try:
                 pk = self.enc.encode_ebyte(msg)
